@@ -282,3 +282,30 @@ package encoder
 //@   assert call(createECCBlock,1): len(temp) >= 1 && block + (len(temp) - 1) * blockCount < symbolInfo.dataCapacity && block + len(temp) * blockCount >= symbolInfo.dataCapacity
 //@   assert call(createECCBlock,1): forall k int :: 0 <= k && k < len(temp) ==> temp[k] == codewords[block + k * blockCount]
 //@   assert call(createECCBlock,1): arg1 == symbolInfo.rsBlockError
+
+// ---------------------------------------------------------------- ANSI X12 encodation (ISO/IEC 16022 5.2.7), C02
+// character values: CR 0, * 1, > 2, space 3, digits 4..13, A-Z 14..39 (the decoder's table C.3 read backwards)
+//@ spec func x12Val(c byte) int = int(c) == 13 ? 0 : (int(c) == 42 ? 1 : (int(c) == 62 ? 2 : (int(c) == 32 ? 3 : ((48 <= int(c) && int(c) <= 57) ? int(c) - 44 : ((65 <= int(c) && int(c) <= 90) ? int(c) - 51 : -1)))))
+//@ spec func x12Char(v int) int = v == 0 ? 13 : (v == 1 ? 42 : (v == 2 ? 62 : (v == 3 ? 32 : (v < 14 ? v + 44 : v + 51))))
+//@ lemma x12RoundTrip(c int)
+//@   property C02
+//@   proof cases c 0 255
+//@   ensures x12Val(byte(c)) >= 0 ==> x12Val(byte(c)) <= 39 && x12Char(x12Val(byte(c))) == c
+//@ func x12EncodeChar(c byte, sb []byte) (r []byte, e error)
+//@   property C02 C12
+//@   requires len(sb) <= 100000
+//@   ensures (x12Val(c) < 0) == (e != nil)
+//@   ensures e == nil ==> len(r) == len(sb) + 1 && int(r[len(sb)]) == x12Val(c) && (forall k int :: 0 <= k && k < len(sb) ==> r[k] == sb[k])
+//@   ensures e != nil ==> r == sb
+// end of data (5.2.7.2): after the buffered (unwritten) values are handed back to the message, the unlatch codeword 254 is
+// omitted exactly when the symbol is full and nothing remains, or one character remains and exactly one codeword is left
+// (it is then written as an ASCII codeword)
+//@ func x12HandleEOD(context *EncoderContext, buffer []byte) (e error)
+//@   property C02
+//@   globals symbols
+//@   requires context != nil && len(context.codewords) <= 100000 && len(buffer) <= 2 && 0 <= context.skipAtEnd && len(buffer) <= context.pos && context.pos <= len(context.msg) - context.skipAtEnd && len(context.msg) <= 100000
+//@   let rem = len(context.msg) - context.skipAtEnd - (old(context.pos) - len(buffer))
+//@   ensures e == nil ==> context.pos == old(context.pos) - len(buffer) && context.symbolInfo != nil
+//@   ensures e == nil ==> (len(context.codewords) == old(len(context.codewords)) + 1) == !((rem == 1 || rem == 0) && context.symbolInfo.dataCapacity - old(len(context.codewords)) == rem)
+//@   ensures e == nil ==> len(context.codewords) == old(len(context.codewords)) || (len(context.codewords) == old(len(context.codewords)) + 1 && int(context.codewords[len(context.codewords) - 1]) == 254)
+//@   ensures e == nil ==> context.newEncoding >= 0
